@@ -22,8 +22,8 @@ N_RUNS = {"quick": 48, "thorough": 3200}
 SHARD_TIMEOUT = {"quick": 90, "thorough": 120}
 RULE = (
     "each run is a fresh process tree under a pty: 1..8 threads x 0..3 child processes (x grandchildren) created "
-    "as Process(target=...), as a Process subclass overriding run(), through a context's own Process class, or with a "
-    "target that imports the library only once it runs, started with fork / spawn / forkserver at random moments while the other threads hammer lock_tty-decorated probes "
+    "as Process(target=...), as a Process subclass overriding run(), through a context's own Process class, with a "
+    "target that imports the library only once it runs, or behind a relay process that never imports the library at all, started with fork / spawn / forkserver at random moments while the other threads hammer lock_tty-decorated probes "
     "(nesting depth 0..2, random hold times) and id-echoing terminal queries; delays are injected in the lock "
     "hand-over window (around mp_RLock / Array creation) and at line level inside lock_tty_wrapper / "
     "_process_start_wrapper / _process_run_wrapper; in 15 % of the runs one thread stays inside a synchronized call for 1.3..2.2 s across the first start; every probe logs [enter, exit] stamps taken inside its body "
@@ -58,9 +58,13 @@ def plan(tier, seed):
             delays=rnd.random() < 0.7,
             line_yields=rnd.random() < 0.6,
             concurrent_starts=rnd.random() < 0.5,
-            create=rnd.choice(["target", "target", "subclass", "context", "lazy"]),
+            create=rnd.choice(["target", "target", "subclass", "context", "lazy", "relay"]),
             failing_first_start=rnd.random() < 0.35,
         )
+        if i % 12 in (1, 2):
+            # (in every tier: relays under spawn and forkserver, where they really never
+            # import the library)
+            cfg.update(create="relay", children=max(1, cfg["children"]))
         if rnd.random() < 0.15 and cfg["children"]:
             cfg["long_hold"] = rnd.choice([1.3, 1.6, 2.2])
         if cfg["create"] == "context":
@@ -265,6 +269,8 @@ def run_shard(shard, env):
                         stolen.append("a bystander's read_tty_all() in %s received %r: a reply addressed to another caller" % ((r[1], r[2]), r[4][:40]))
                     elif r[0] == "S":
                         start_errors.append(r[3])
+                    elif r[0] == "R":
+                        res.count("relay processes (between the root and a process using the library; %s) that %s the library" % (cfg["method"], "had imported" if r[3] else "never imported"))
                     elif r[0] == "b":
                         res.count("bystander reads that found nothing (as they must)")
                     else:
@@ -273,7 +279,7 @@ def run_shard(shard, env):
         res.count("processes observed", len({w[0][0] for w in intervals}))
         res.count("threads observed", len({w[0] for w in intervals}))
         res.count("start method " + cfg["method"])
-        res.count("processes created as " + {"subclass": "a Process subclass overriding run()", "context": "get_context(method).Process(target=...)", "lazy": "Process(target=<function of a module that imports the library only when called>)"}.get(cfg.get("create"), "Process(target=...)"))
+        res.count("processes created as " + {"subclass": "a Process subclass overriding run()", "context": "get_context(method).Process(target=...)", "lazy": "Process(target=<function of a module that imports the library only when called>)", "relay": "Process(target=<function of a module that never imports the library, starting a process that does>)"}.get(cfg.get("create"), "Process(target=...)"))
         # which processes were really at work at the same time (spans of the rendezvous phase)
         spans = {}
         for who, t0, t1, tag in intervals:
